@@ -21,7 +21,7 @@ def draw_layout(rng, **kw) -> dict:
 
 def _draw_layout(rng, *, max_features=12, min_samples=14, max_samples=30, allow_nan=True,
                 allow_mi=True, containers=("da", "da", "ds", "list"), complex_=False,
-                n_fields=None, allow_str=True, attrs=True, big=False) -> dict:
+                n_fields=None, allow_str=True, attrs=True, big=False, hetero=0.0) -> dict:
     d: dict = {"seed": rng.randrange(1, 2 ** 31)}
     container = rng.choice(containers)
     d["container"] = container
@@ -38,7 +38,7 @@ def _draw_layout(rng, *, max_features=12, min_samples=14, max_samples=30, allow_
     nf = 1 if container == "da" else (n_fields or rng.randint(1, 3))
     budget = max_features
     fields = []
-    same_dims = container == "ds" and rng.random() < 0.7
+    same_dims = container == "ds" and rng.random() >= hetero
     first = None
     for k in range(nf):
         share = max(2, budget // (nf - k))
